@@ -323,7 +323,7 @@ class Run:
                 continue
             if "where" in m:
                 try:
-                    if not eval(m["where"], {"__builtins__": {}}, {"e": e, "len": len, "any": any, "all": all}):
+                    if not eval(m["where"], {"__builtins__": {}}, {"e": e, "len": len, "any": any, "all": all, "sorted": sorted, "set": set}):
                         continue
                 except Exception:
                     continue
